@@ -320,8 +320,9 @@ func (c *connection) onActiveRespondEvent(record map[uint16]*ActiveMessage, msg 
 	case consts.T1003UploadAudioVideoAttr:
 		t0x1003 := &model.T0x1003{}
 		tmp.JT808Handler = t0x1003
-		tmp.HasRespondFunc = func(_ uint16) bool {
-			return true
+		// 0x1003没有应答流水号 只能对应还在等应答的0x9003
+		tmp.HasRespondFunc = func(seq uint16) bool {
+			return record[seq].Command == consts.P9003QueryTerminalAudioVideoProperties
 		}
 	case consts.T1205UploadAudioVideoResourceList:
 		t0x1205 := &model.T0x1205{}
